@@ -218,6 +218,8 @@ def project(pid, op, group, canon, ctx):
             return res
         if cmd in ("rm", "reset", "load", "b_rment"):
             return res
+        if cmd in ("hasu", "getu", "relu"):
+            return status(res)  # a removed entity's slot holds no table
         if cmd == "snapshot":
             return " ".join(sorted(re.findall(r"(\d+:\d+)\[", res)))
         if cmd == "inv":
@@ -276,6 +278,8 @@ def project(pid, op, group, canon, ctx):
             return res if cmd[-1] != "q" else status(res)
         if cmd == "bld" and (" batch " in op or " batchq " in op):
             return status(res) + " n=%d" % len(created_handles(op, res))
+        if cmd in ("hasu", "getu", "relu"):
+            return c(res)  # the entity index behind removed / moved entities, read without a liveness check
         if cmd == "snapshot":
             return c(res)
         if cmd in QOPS and cmd != "q" and op.split()[1] in ctx.get("bq", ()):
